@@ -708,7 +708,7 @@ def as_str(M, x):
     x = M.deref(x)
     if isinstance(x, (Str, SymStr)): return x
     raise Unsupported('not a string: %r' % (x,))
-@reg(r'^<str as std::string::ToString>::to_string$|^<std::string::String as std::convert::From<&str>>::from$|^<str as std::borrow::ToOwned>::to_owned$|^<std::string::String as std::clone::Clone>::clone$|^<std::string::String as std::convert::From<&std::string::String>>::from$|^std::str::<impl str>::to_string$|^<std::string::String as std::string::ToString>::to_string$|^<std::string::String as std::str::FromStr>::from_str$|^std::str::<impl str>::to_owned$|^<&str as std::string::ToString>::to_string$|^<std::string::String as std::convert::From<std::borrow::Cow<.*>>>::from$|^std::borrow::Cow::<.*>::into_owned$|^std::borrow::Cow::into_owned$|^std::str::<impl str>::into_string$|^<std::boxed::Box<str> as std::convert::From<.*>>::from$')
+@reg(r'^<str as std::string::ToString>::to_string$|^<std::string::String as std::convert::From<&str>>::from$|^<str as std::borrow::ToOwned>::to_owned$|^<std::string::String as std::clone::Clone>::clone$|^<std::string::String as std::convert::From<&std::string::String>>::from$|^std::str::<impl str>::to_string$|^<std::string::String as std::string::ToString>::to_string$|^<std::string::String as std::str::FromStr>::from_str$|^std::str::<impl str>::to_owned$|^<&str as std::string::ToString>::to_string$|^<std::string::String as std::convert::From<std::borrow::Cow<.*>>>::from$|^std::borrow::Cow::<.*>::into_owned$|^std::borrow::Cow::into_owned$|^std::str::<impl str>::into_string$|^<std::boxed::Box<str> as std::convert::From<.*>>::from$|^<std::string::String as std::convert::From<impl Into<String>>>::from$|^<std::string::String as std::convert::From<[A-Z]>>::from$')
 def _str_owned(M, fr, n, a):
     v = as_str(M, a[0])
     r = Str(list(v.b)) if isinstance(v, Str) else v
@@ -1088,3 +1088,61 @@ def _problem(M, fr, n, a):
     names = M.prog.enums.get('Problem')
     nm = names[p.disc] if names and not is_sym(p.disc) else '?'
     return Ref(Cell(Str('%s:%s' % (n.split('::')[-1], nm))))
+
+@reg(r'^core::str::<impl str>::lines$')
+def _str_lines(M, fr, n, a):
+    """str::lines: split on \\n, a trailing \\r of each line is stripped, no final empty line"""
+    s = as_str(M, a[0]); out = []; cur = []
+    for b in s.b:
+        if M.branch(v_eq(b, 10)):
+            if cur and M.branch(v_eq(cur[-1], 13)): cur = cur[:-1]
+            out.append(Ref(Cell(Str(cur)))); cur = []
+        else: cur.append(b)
+    if cur:
+        # (a trailing bare \r on the last line is also stripped since Rust 1.? - documented behaviour: "\r\n" or "\n" only; keep)
+        out.append(Ref(Cell(Str(cur))))
+    return IterV(out)
+@reg(r'^std::str::<impl str>::repeat$|^alloc::str::<impl str>::repeat$')
+def _str_repeat(M, fr, n, a):
+    s = as_str(M, a[0]); k = simp(a[1])
+    if is_sym(k): raise Unsupported('symbolic repeat count')
+    return Str(list(s.b) * k)
+@reg(r'^std::slice::<impl \[.*\]>::join$|^alloc::slice::<impl \[.*\]>::join$|^std::slice::<impl \[.*\]>::concat$')
+def _slice_join(M, fr, n, a):
+    parts = [as_str(M, x) for x in seq(M, a[0])]
+    sep = as_str(M, a[1]).b if len(a) > 1 else []
+    out = []
+    for i, p in enumerate(parts):
+        if i: out.extend(sep)
+        out.extend(p.b)
+    return Str(out)
+@reg(r'^core::str::<impl str>::split$')
+def _str_split(M, fr, n, a):
+    s = as_str(M, a[0]); p = _pat_bytes(M, a[1]); out = []; cur = []; i = 0
+    while i < len(s.b):
+        if i + len(p) <= len(s.b) and M.branch(_match_at(s, i, p)):
+            out.append(Ref(Cell(Str(cur)))); cur = []; i += len(p)
+        else: cur.append(s.b[i]); i += 1
+    out.append(Ref(Cell(Str(cur))))
+    return IterV(out)
+@reg(r'^core::str::<impl str>::(trim_end_matches|trim_start_matches|strip_prefix|strip_suffix)$')
+def _str_strip(M, fr, n, a):
+    s = as_str(M, a[0]); p = _pat_bytes(M, a[1]); op = n.rsplit('::', 1)[1]
+    if op == 'strip_prefix':
+        return some(Ref(Cell(Str(s.b[len(p):])))) if M.branch(_match_at(s, 0, p)) else none()
+    if op == 'strip_suffix':
+        if len(p) > len(s.b): return none()
+        return some(Ref(Cell(Str(s.b[:len(s.b) - len(p)])))) if M.branch(_match_at(s, len(s.b) - len(p), p)) else none()
+    b = list(s.b)
+    if op == 'trim_end_matches':
+        while len(b) >= len(p) and p and M.branch(_match_at(Str(b), len(b) - len(p), p)): b = b[:len(b) - len(p)]
+    else:
+        while len(b) >= len(p) and p and M.branch(_match_at(Str(b), 0, p)): b = b[len(p):]
+    return Ref(Cell(Str(b)))
+@reg(r'^std::string::String::(truncate|pop|clear|insert_str|insert)$')
+def _string_mut(M, fr, n, a):
+    s = as_str(M, a[0]); op = n.rsplit('::', 1)[1]
+    if op == 'clear': s.b = []; return UNIT
+    if op == 'truncate':
+        k = simp(a[1]); s.b = s.b[:k]; return UNIT
+    raise Unsupported('String::' + op)
